@@ -347,6 +347,7 @@ impl Deserializable for Instruction {
                 let options = debug::read_options_from(source)?;
                 Ok(Instruction::Debug(options))
             }
+            OpCode::Breakpoint => Ok(Instruction::Breakpoint),
 
             // ----- event decorators -------------------------------------------------------------
             OpCode::Emit => Ok(Instruction::Emit(source.read_u32()?)),
